@@ -93,3 +93,23 @@ package fsm
 //@   requires a-cb-disjoint: forall k *container.Container, j *container.Container :: k.ValueSetByUser == nil || k.ValueSetByUser != ival(j.Value)
 //@   ensures rejected: !accepts(s, args, false) ==> result != nil
 //@   ensures nil-only-if-accepted: result == nil ==> accepts(s, args, false)
+
+// --- graph construction helpers (used by the parser) -----------------------------------------------------------------------
+//@ func NewState
+//@   ensures fresh: result != nil && fresh(result) && !result.Terminal && len(result.Transitions) == 0
+
+//@ func (*State).T
+//@   requires recv: s != nil
+//@   ensures result: result == next
+//@   ensures appended: len(s.Transitions) == old(len(s.Transitions)) + 1 &&
+//@       (forall i int :: {s.Transitions[i]} 0 <= i && i < old(len(s.Transitions)) ==> s.Transitions[i] == old(s.Transitions[i])) &&
+//@       s.Transitions[old(len(s.Transitions))] != nil && fresh(s.Transitions[old(len(s.Transitions))]) && allocated(s.Transitions[old(len(s.Transitions))]) &&
+//@       s.Transitions[old(len(s.Transitions))].Matcher == matcher && s.Transitions[old(len(s.Transitions))].Next == next
+//@   ensures frame: frame(s.Transitions) && s.Terminal == old(s.Terminal)
+
+// Prepare (shortcut elimination + priority sort) is not verified: its effect on the graph's language is covered by the
+// bounded stand-in O4 (DESIGN.md); here it is only assumed to return.
+//@ func (*State).Prepare
+//@   trusted
+//@   requires recv: s != nil
+//@   modifies H_fsm_State_Transitions, H_fsm_State_Terminal
